@@ -11,9 +11,9 @@ package c11
 
 import (
 	"context"
-	"os"
 	"errors"
 	"fmt"
+	"os"
 	"strings"
 	"sync/atomic"
 
